@@ -626,6 +626,8 @@ impl<'a> Hist<'a> {
                             }
                         };
                         self.violate("C06/expired-handout", format!("path {name} expired {}s before it was handed out ({}){tag}", t_secs - exp, h.kind))?;
+                        // the same hand-out seen from C05: the path stems from an earlier lookup and is no longer valid
+                        self.violate("C05/handed-out-path-no-longer-valid", format!("path {name} stems from an earlier lookup and expired {}s before it was handed out ({}){tag}", t_secs - exp, h.kind))?;
                     }
                     if let Some(r) = self.route_of_fp(&fp_str(p)) {
                         self.check_fresh_penalty(h.pair, r, h.t_ns)?;
